@@ -27,12 +27,42 @@ func init() {
 				"'above the limit' exactly when that stamp is set and not older than the interval.",
 			NotCovered: "that the ring buffer of golibs behaves as a ring (trusted), so that R7's structure (limit+1 slots, push before read, comparison with " +
 				"the interval) yields an exact sliding window; the expiry timing of the backoff tables (temporal facts outside static reach); the allowlist's own matching.",
-			Rules: map[string]string{"C09-R21": "every key of the ratelimit section of the documented sample configuration config.dist.yaml (refuseany, counts, intervals, key lengths, allowlist, ...) is named by a yaml tag of the configuration structure: a documented setting that the decoder ignores leaves the limiter without it", "C09-R20": "backendpb.RateLimiter.Refresh replaces the allowlist with what the backend sent on every successful refresh, an empty list included (a subnet removed from the allowlist stops being exempt); a failed call leaves it alone", "C09-R19": "the rate-limiting middleware takes the peer address through netutil.NetAddrToAddrPort, which unmaps IPv4-mapped IPv6 addresses", "C09-R18": "serveDNSMsgInternal writes nothing when the handler returns nil without a response, so a query dropped by the limiter stays unanswered (tables shared with C01-R2 and C01-R3)", "C09-R17": "every path of the rate-limiting middleware that serves a plain-DNS query has asked the global limiter (the only implementation of refuse_any and of the allowlist) first", "C09-R16": "subnets converted between the backend, the internal and the file-cache representations keep their prefix length as it is (a /0 stays a /0)", "C09-R15": "NewBackoff: request counters expire after Period, hit counters after Duration", "C09-R14": "configuration objects handed to constructors that keep them are built per server (hand-off rule shared with C15-R6)", "C09-RC": "class rules (error chains, shadowed results, character classes, crossed arguments, pool constructors, array pools, loop completeness, loop-carried buffers, replacing setters, complete clones, Grow arithmetic, pooled-buffer escape, sorted searches, fresh decode targets, per-iteration objects, whole-message copies, codec guards) over the packages this property rests on", "C09-R13": "backendpb.RateLimitSettings.toInternal: the profile's own limiter exactly when present and enabled (an empty subnet list is not a reason to fall back to the global one)", "C09-R12": "DynamicAllowlist.IsAllowed: exempt exactly when some persistent or dynamic subnet contains the address; the dynamic part is read under the lock; constructor field map", "C09-R11": "list setters (DynamicAllowlist.Update, …) replace the list: no append onto the previous contents of the same field", "C09-R1": "middleware gate tables", "C09-R2": "limiter check order, family selection, keying", "C09-R3": "profile limiter table",
+			Rules: map[string]string{"C09-R23": "Backoff.isBackoff: a subnet is in backoff exactly when it has a hit counter whose value has reached the configured count (>=, the count-th over-limit event included)", "C09-R22": "the sliding window of a subnet is kept while the subnet is active: on every path of Backoff.hasHitRateLimit to the counting step the window is (re)stored in the expiring cache, so that its lifetime runs from the last use and not from the first", "C09-R21": "every key of the ratelimit section of the documented sample configuration config.dist.yaml (refuseany, counts, intervals, key lengths, allowlist, ...) is named by a yaml tag of the configuration structure: a documented setting that the decoder ignores leaves the limiter without it", "C09-R20": "backendpb.RateLimiter.Refresh replaces the allowlist with what the backend sent on every successful refresh, an empty list included (a subnet removed from the allowlist stops being exempt); a failed call leaves it alone", "C09-R19": "the rate-limiting middleware takes the peer address through netutil.NetAddrToAddrPort, which unmaps IPv4-mapped IPv6 addresses", "C09-R18": "serveDNSMsgInternal writes nothing when the handler returns nil without a response, so a query dropped by the limiter stays unanswered (tables shared with C01-R2 and C01-R3)", "C09-R17": "every path of the rate-limiting middleware that serves a plain-DNS query has asked the global limiter (the only implementation of refuse_any and of the allowlist) first", "C09-R16": "subnets converted between the backend, the internal and the file-cache representations keep their prefix length as it is (a /0 stays a /0)", "C09-R15": "NewBackoff: request counters expire after Period, hit counters after Duration", "C09-R14": "configuration objects handed to constructors that keep them are built per server (hand-off rule shared with C15-R6)", "C09-RC": "class rules (error chains, shadowed results, character classes, crossed arguments, pool constructors, array pools, loop completeness, loop-carried buffers, replacing setters, complete clones, Grow arithmetic, pooled-buffer escape, sorted searches, fresh decode targets, per-iteration objects, whole-message copies, codec guards) over the packages this property rests on", "C09-R13": "backendpb.RateLimitSettings.toInternal: the profile's own limiter exactly when present and enabled (an empty subnet list is not a reason to fall back to the global one)", "C09-R12": "DynamicAllowlist.IsAllowed: exempt exactly when some persistent or dynamic subnet contains the address; the dynamic part is read under the lock; constructor field map", "C09-R11": "list setters (DynamicAllowlist.Update, …) replace the list: no append onto the previous contents of the same field", "C09-R1": "middleware gate tables", "C09-R2": "limiter check order, family selection, keying", "C09-R3": "profile limiter table",
 				"C09-R4": "window counter under its lock", "C09-R9": "builder wiring: the configured allowlist is the persistent part of the dynamic allowlist", "C09-R8": "the dynamic allowlist is replaced only after a successful load (a failed refresh keeps the previous allowlist)", "C09-R7": "window counter structure: the ring holds limit+1 time stamps; every event (also one that is dropped) is pushed before the oldest one is read; the event is above the limit iff the oldest kept stamp is set and within the interval", "C09-R5": "every estimated response is counted", "C09-R6": "configuration-to-limiter field map (each family's count, interval and key length under its own name)"},
 		}})
 }
 
 func runC09(c *an.Ctx) {
+	// ---- R23: the backoff threshold
+	c.Floor("C09-R23", 1)
+	decide(c, "C09-R23", "dnsserver/ratelimit.(*Backoff).isBackoff", an.DecideCfg{
+		Dom: an.Domain{"found": an.Bools, "hits": an.Ints(2, 3, 4), "p0.count": an.Ints(3)},
+		OnCall: func(it *an.Interp, name string, args []an.AV) (an.AV, bool) {
+			switch {
+			case strings.HasSuffix(name, "go-cache.cache).Get"):
+				if len(args) != 2 || !strings.Contains(args[0].String(), "hitCounters") || args[1].String() != "p1" {
+					return an.Sym("lookup in another table or under another key"), true
+				}
+				if it.Feature("found").IsTrue() {
+					return an.AV{Kind: an.KTuple, Tup: []an.AV{an.NonNil("ctr"), an.CBool(true)}}, true
+				}
+				return an.AV{Kind: an.KTuple, Tup: []an.AV{an.Nil(), an.CBool(false)}}, true
+			case name == "(*sync/atomic.Uint64).Load":
+				return it.Feature("hits"), true
+			}
+			return an.AV{}, false
+		},
+		Expect: func(f an.Features, o an.AOutcome) string {
+			want := f.B("found") && f.I("hits") >= f.I("p0.count")
+			if o.RetString() == fmt.Sprint(want) {
+				return ""
+			}
+			return fmt.Sprintf("%v for a counter found=%v with %d hits against a count of %d", want, f.B("found"), f.I("hits"), f.I("p0.count"))
+		},
+	})
+	// ---- R22: the window of an active subnet does not expire
+	c.Floor("C09-R22", 1)
+	c09WindowRenewed(c, "C09-R22")
 	// ---- R21: the documented rate-limit settings are read by the configuration structure
 	if n := sharedDistConfigKeys(c, "C09-R21", "ratelimit."); n < 8 {
 		c.Und("C09-R21", "keys of config.dist.yaml", token.NoPos, "only %d key paths under ratelimit examined", n)
@@ -86,7 +116,9 @@ func runC09(c *an.Ctx) {
 	// ---- R18: a handler that returns without writing leaves a plain-DNS query unanswered: the server adds no
 	// response of its own (tables of serveDNSMsgInternal, shared with C01-R2 / C01-R3)
 	c.Floor("C09-R18", 2)
-	c.Borrow("C09-R18", runC01, func(o an.Obligation) bool { return (o.Rule == "C01-R2" || o.Rule == "C01-R3") && strings.Contains(o.Key, "serveDNSMsgInternal") })
+	c.Borrow("C09-R18", runC01, func(o an.Obligation) bool {
+		return (o.Rule == "C01-R2" || o.Rule == "C01-R3") && strings.Contains(o.Key, "serveDNSMsgInternal")
+	})
 	// ---- R17: ANY refusal reaches every path that serves a plain-DNS query
 	if n := c09AnyRefusal(c, "C09-R17"); n < 3 {
 		c.Und("C09-R17", "serving paths of the rate-limiting middleware", token.NoPos, "only %d ServeDNS calls found in the serveWith…Ratelimiting functions", n)
@@ -806,6 +838,13 @@ func c09GetOrCreate(c *an.Ctx, rule string, fnNames ...string) {
 					defaultTTL = true
 				}
 			}
+			if !defaultTTL && strings.Contains(table, ".reqCounters") && len(call.Common().Args) == 4 {
+				// the request windows are stored again on every use (R22): a lifetime of one counting interval after
+				// the last use is as good as the table's own, since every event of an older window is out of date
+				if pa, ok := call.Common().Args[3].(*ssa.Parameter); ok && pa.Name() == "ivl" {
+					defaultTTL = true
+				}
+			}
 			c.Check(defaultTTL, rule, name+" inserts into "+table+" with the table's own expiration", call.Pos(),
 				"the entry expires after the period the table was created with",
 				"the entry is inserted with an expiration of its own: the window counter (or the hit counter) is dropped and restarted after that time, whatever the configured period")
@@ -819,6 +858,12 @@ func c09GetOrCreate(c *an.Ctx, rule string, fnNames ...string) {
 				if ex, ok := cond.(*ssa.Extract); ok && ex.Tuple == ssa.Value(get) && ex.Index == 1 && !branch {
 					onMiss = true
 				}
+			}
+			if strings.Contains(table, ".reqCounters") {
+				// the sliding window is stored again on every use, so that an active subnet keeps it (rule R22, F55);
+				// restarting the expiry is the point there
+				c.Ok(rule, name+" inserts into "+table+" only when the entry is missing", call.Pos(), "not demanded for the request windows: R22 demands the opposite (the window is stored again on every use)")
+				continue
 			}
 			c.Check(onMiss, rule, name+" inserts into "+table+" only when the entry is missing", call.Pos(),
 				"the table entry is inserted only on the lookup's miss edge",
@@ -888,7 +933,6 @@ func c09AllowlistTable(c *an.Ctx) {
 		c.Check(n > 0 && bad == "", "C09-R12", fnKey+" reads the dynamic part under its lock", fn.Pos(), "read under the lock that Update takes", bad)
 	}
 }
-
 
 // c09BackoffTables: the two expiring tables of the backoff limiter are created
 // with their own periods: request counters live for the counting period, hit
@@ -1026,4 +1070,65 @@ func c09UnmappedRemote(c *an.Ctx, rule string) {
 	}
 	c.Check(n > 0 && bad == "", rule, key, fn.Pos(), fmt.Sprintf("%d uses of the remote address, each of the unmapping conversion's result", n),
 		bad+": an IPv4 client of a dual-stack listener keeps its IPv4-mapped IPv6 form and is limited, allowlisted and matched as an IPv6 client")
+}
+
+// c09WindowRenewed: the per-subnet RequestCounter lives in an expiring cache
+// (go-cache), which does not extend an entry's life when it is read.  An entry
+// stored only when the subnet is first seen disappears a fixed time later,
+// activity or not, and the next query starts with an empty window: up to twice
+// the configured number of queries pass within one interval.  On every path of
+// hasHitRateLimit from the entry to the Add of the counter, the counter is
+// stored (Set / SetDefault) in the reqCounters cache.
+func c09WindowRenewed(c *an.Ctx, rule string) {
+	k := "dnsserver/ratelimit.(*Backoff).hasHitRateLimit"
+	fn := c.Prog.Fn(k)
+	key := k + ": the window is stored again on every use"
+	if fn == nil {
+		c.Und(rule, key, token.NoPos, "anchor not found")
+		return
+	}
+	c.Analysed(k)
+	var add ssa.Instruction
+	stores := map[ssa.Instruction]bool{}
+	for _, call := range an.Calls(fn) {
+		n := an.CalleeName(call)
+		switch {
+		case strings.HasSuffix(n, "ratelimit.RequestCounter).Add"):
+			add = call
+		case strings.Contains(n, "go-cache.") && (strings.HasSuffix(n, ").SetDefault") || strings.HasSuffix(n, ").Set")):
+			// the receiver is the embedded cache of the *cache.Cache held in Backoff.reqCounters
+			if p, ok := an.AccessPath(call.Common().Args[0]); ok && strings.Contains(p, ".reqCounters") {
+				stores[call] = true
+			}
+		}
+	}
+	if add == nil || len(stores) == 0 {
+		c.Und(rule, key, fn.Pos(), "the Add of the request counter or the store into reqCounters was not found")
+		return
+	}
+	// is the Add reachable from the entry without passing a store?
+	seen := map[*ssa.BasicBlock]bool{}
+	var reach func(b *ssa.BasicBlock, from int) bool
+	reach = func(b *ssa.BasicBlock, from int) bool {
+		for _, in := range b.Instrs[from:] {
+			if stores[in] {
+				return false
+			}
+			if in == add {
+				return true
+			}
+		}
+		for _, s := range b.Succs {
+			if !seen[s] {
+				seen[s] = true
+				if reach(s, 0) {
+					return true
+				}
+			}
+		}
+		return false
+	}
+	bypass := reach(fn.Blocks[0], 0)
+	c.Check(!bypass, rule, key, add.Pos(), "every path to the counting step stores the window in the cache",
+		"a path reaches the counting step at "+c.Pos(add.Pos())+" without storing the window in reqCounters (the path on which it was found there): the cache entry keeps the expiry of its creation, the window of an active subnet is dropped a backoff period after the subnet was first seen, and the subnet gets a fresh allowance inside the same interval")
 }
